@@ -36,7 +36,24 @@ def simplify(e, case):
 
 
 def array_actual(e):
-    """`MAT_BUFD(A) + oA` -> ('A', offset Poly, macro) ; None if not of that shape"""
+    """`MAT_BUFD(A) + oA` -> ('A', offset Poly, macro) ; None if not of that shape.
+    Byte-addressed form of base.c: `(unsigned char*)MAT_BUF(x) + ox*E_SIZE[id]`."""
+    r = _array_actual(e)
+    if r and r[2] == "MAT_BUF" and r[1].t:
+        # every term must carry the element size exactly once: offset in elements
+        es = "E_SIZE[id]"
+        out = {}
+        for mono, cval in r[1].t.items():
+            d = dict(mono)
+            if d.get(es, 0) != 1:
+                return None
+            d.pop(es)
+            out[tuple(sorted(d.items()))] = cval
+        return (r[0], Poly(out), r[2])
+    return r
+
+
+def _array_actual(e):
     e = cx.strip_casts(e)
     if e[0] == "call" and e[1] in BUF_MACROS and len(e[2]) == 1 and e[2][0][0] == "id":
         return (e[2][0][1], Poly.const(0), e[1])
@@ -47,7 +64,7 @@ def array_actual(e):
             if off is not None:
                 return (l[2][0][1], off, l[1])
         if l[0] == "bin" and l[1] == "+":
-            inner = array_actual(l)
+            inner = _array_actual(l)
             off = cx.to_poly(r)
             if inner and off is not None:
                 return (inner[0], inner[1] + off, inner[2])
@@ -167,6 +184,10 @@ def check_site(site, sim, gfacts, kbmod=kb, allocs=None):
             return [("undecided", "%s:%s" % (site.callee, pname), "argument text not parsed", None, None)]
         if role in ("dim", "ld", "inc"):
             v = scalar_var(a)
+            if v == "intOne":
+                vals[pname] = Poly.const(1)
+                vals["#var:" + pname] = v
+                continue
             if v is None:
                 return [("undecided", "%s:%s" % (site.callee, pname), "scalar actual is not `&var`", None, cx.unparse(a))]
             vals[pname] = Poly.sym(v)
@@ -186,6 +207,9 @@ def check_site(site, sim, gfacts, kbmod=kb, allocs=None):
     for f in site.facts:
         if f.D is not None and not f.eq and not f.ne:
             fpolys.append((f.D, f.strict, f.text))
+        elif f.D is not None and f.eq:
+            fpolys.append((f.D, False, f.text))
+            fpolys.append((-f.D, False, f.text))
     # re-derive D after simplification of flag-dependent ternaries
     simp = []
     for f in site.facts:
@@ -206,6 +230,11 @@ def check_site(site, sim, gfacts, kbmod=kb, allocs=None):
             eqsub[f.assign_var] = f.assign_poly
 
     def absnorm(p):
+        if "abs(1)" in p.symbols():
+            p = p.subs({"abs(1)": Poly.const(1)})
+        return _absnorm2(p)
+
+    def _absnorm2(p):
         """abs(v) -> v when v > 0 is established"""
         m = {}
         for s in p.symbols():
@@ -275,14 +304,9 @@ def check_site(site, sim, gfacts, kbmod=kb, allocs=None):
                 weaker = weaker or ("different", text)
         exp = "guard  %s + (%r) <= len(%s)" % (repr(off), fp, X)
         if not hit:
-            nb = _base_vars([need])
-            relf = []
-            for D, st_, _t in fpolys:
-                Dn = absnorm(D)
-                bv = _base_vars([Dn])
-                if bv & nb and not any(v.startswith("len(") and v != "len(%s)" % X for v in bv):
-                    relf.append((Dn, st_))
-            verdict, wit = grid_decide(need, relf, case, gfacts, "len(%s)" % X)
+            need_e, facts_e = eliminate_equalities(need, [(absnorm(D), st_) for D, st_, _t in fpolys])
+            relf = _relevant_facts(need_e, facts_e, "len(%s)" % X)
+            verdict, wit = grid_decide(need_e, relf, case, gfacts, "len(%s)" % X)
             if verdict == "equivalent":
                 hit = ("equivalent on the grid", weaker[1] if weaker else "")
             elif verdict == "over":
@@ -334,6 +358,13 @@ def check_site(site, sim, gfacts, kbmod=kb, allocs=None):
                         okld = True          # rows >= 1 always: MAX(1, rows) == rows
                     elif _equal_on_grid(D, want):
                         okld = True
+            if not okld:
+                facts_all = [(absnorm(D), st_) for D, st_, _t in fpolys]
+                want_e, facts_e = eliminate_equalities(want, [f_ for f_ in facts_all if "len(" not in repr(f_[0])])
+                relf = _relevant_facts(want_e, facts_e, "len(%s)" % X)
+                verdict, wit = grid_decide(want_e, relf, case, gfacts, "len(%s)" % X)
+                if verdict in ("equivalent", "over") and relf:
+                    okld = True
             if okld:
                 res.append(("ok", what + ":ld", "%s >= MAX(1, %s)" % (ldv, _txt(rows)), None, None))
             elif fp is not None:
@@ -394,7 +425,29 @@ def _eval(e, env):
     return env.get(txt)
 
 
+def _leaf_vars(e, out):
+    k = e[0]
+    if k == "num":
+        return
+    if k == "id":
+        out.add(e[1])
+    elif k == "cast":
+        _leaf_vars(e[2], out)
+    elif k == "un":
+        _leaf_vars(e[2], out)
+    elif k == "bin" and e[1] in ("+", "-", "*"):
+        _leaf_vars(e[2], out)
+        _leaf_vars(e[3], out)
+    elif k == "call" and e[1] in ("MAX", "MIN", "abs"):
+        for a in e[2]:
+            _leaf_vars(a, out)
+    else:
+        out.add(cx.unparse(e))
+
+
 def _base_vars(polys):
+    """the free variables of the polynomials: plain symbols, and the leaves inside
+    MAX(..)/MIN(..)/abs(..) symbols (`A->nrows` is one variable, not `A`)"""
     out = set()
     for p in polys:
         for s in p.symbols():
@@ -403,18 +456,62 @@ def _base_vars(polys):
             except cx.ParseError:
                 out.add(s)
                 continue
-            if e[0] == "id":
-                out.add(s)
-            elif e[0] == "call" and e[1] in ("MAX", "MIN", "abs"):
-                out |= {v for v in cx.idents(e)}
-                for a in e[2]:
-                    if a[0] not in ("id", "num", "bin", "un", "call", "cast"):
-                        out.add(cx.unparse(a))
-                    elif a[0] == "mem":
-                        out.add(cx.unparse(a))
+            if e[0] == "call" and e[1] in ("MAX", "MIN", "abs"):
+                _leaf_vars(e, out)
             else:
                 out.add(s)
     return out
+
+
+def eliminate_equalities(need, facts):
+    """facts: [(D, strict)] meaning D >= 0 (or > 0).  A pair D >= 0, -D >= 0 is an equality;
+    when it is `v = expr` for a plain local `v` that occurs nowhere inside an opaque
+    MAX/MIN symbol, substitute it away (fewer grid variables, same solutions)."""
+    facts = list(facts)
+    for _ in range(12):
+        reprs = {}
+        for idx, (D, st_) in enumerate(facts):
+            if not st_:
+                reprs.setdefault(repr(D), idx)
+        pick = None
+        inside = set()
+        for q in [need] + [D for D, _ in facts]:
+            for sname in q.symbols():
+                if "(" in sname:
+                    try:
+                        _leaf_vars(cx.parse(sname), inside)
+                    except cx.ParseError:
+                        pass
+        for idx, (D, st_) in enumerate(facts):
+            if st_ or repr(-D) not in reprs or not D.t:
+                continue
+            for mono, c in D.t.items():
+                if len(mono) == 1 and mono[0][1] == 1 and abs(c) == 1:
+                    v = mono[0][0]
+                    if "(" in v or "->" in v or v in inside:
+                        continue
+                    if any(v in dict(m2) for m2 in D.t if m2 != mono):
+                        continue
+                    rest_ = Poly({m2: c2 for m2, c2 in D.t.items() if m2 != mono})
+                    pick = (v, (-rest_) if c == 1 else rest_, repr(D), repr(-D))
+                    break
+            if pick:
+                break
+        if not pick:
+            break
+        v, expr, r1, r2 = pick
+        sub = {v: expr}
+        need = need.subs(sub)
+        nf = []
+        for D, st_ in facts:
+            if not st_ and repr(D) in (r1, r2):
+                continue
+            D2 = D.subs(sub)
+            if D2.is_const():
+                continue
+            nf.append((D2, st_))
+        facts = nf
+    return need, facts
 
 
 def _pval(p, env):
@@ -428,6 +525,31 @@ def _pval(p, env):
             v = v * (x ** pw)
         tot += v
     return tot
+
+
+def _relevant_facts(need, facts, lensym, limit=9):
+    """facts connected to `need` through shared variables (transitively), without
+    dragging in the length of other matrices; stops growing at `limit` variables"""
+    X = lensym[4:-1]
+    vars_ = set(_base_vars([need]))
+    if lensym in vars_:
+        vars_ |= {"%s->nrows" % X, "%s->ncols" % X}
+    chosen = []
+    rest = list(facts)
+    changed = True
+    while changed:
+        changed = False
+        for f in list(rest):
+            bv = _base_vars([f[0]])
+            if any(v.startswith("len(") and v != lensym for v in bv):
+                rest.remove(f)
+                continue
+            if bv & vars_ and len(vars_ | bv) <= limit + 3:
+                chosen.append(f)
+                rest.remove(f)
+                vars_ |= bv
+                changed = True
+    return chosen
 
 
 def _equal_on_grid(p, q):
@@ -456,9 +578,23 @@ def grid_decide(need, facts, case, gfacts, lensym, budget=60000):
 def _grid_decide(need, facts, case, gfacts, lensym, budget=60000):
     """Compare `need >= 0` (reference requirement) with the conjunction of the guard facts
     on a grid of small concrete values.  -> ('equivalent'|'over'|'under'|'unknown', witness)"""
+    # when the rows/columns of X appear as variables, len(X) is their product
+    allsyms = set(need.symbols())
+    for D, _ in facts:
+        allsyms |= D.symbols()
+    sub = {}
+    for sname in allsyms:
+        if sname.startswith("len(") and sname.endswith(")"):
+            X = sname[4:-1]
+            if ("%s->nrows" % X) in allsyms or ("%s->ncols" % X) in allsyms:
+                sub[sname] = Poly.sym("%s->nrows" % X) * Poly.sym("%s->ncols" % X)
+    is_len_fact = [lensym in D.symbols() for D, _ in facts]
+    if sub:
+        need = need.subs(sub)
+        facts = [(D.subs(sub), st_) for D, st_ in facts]
     polys = [need] + [D for D, _ in facts]
     vars_ = sorted(_base_vars(polys))
-    if len(vars_) > 9:
+    if len(vars_) > 12:
         return ("unknown", None)
     doms = []
     for v in vars_:
@@ -500,15 +636,15 @@ def _grid_decide(need, facts, case, gfacts, lensym, budget=60000):
         if (not ok_guards) and nv >= 0 and over is None:
             # only the length guards matter for over-rejection: re-test with the non-length facts
             oth = True
-            for D, strict in facts:
-                if lensym in D.symbols():
+            for (D, strict), isl in zip(facts, is_len_fact):
+                if isl:
                     continue
                 dv = _pval(D, env)
                 if dv is not None and (dv < 0 or (strict and dv == 0)):
                     oth = False
             lenfail = False
-            for D, strict in facts:
-                if lensym in D.symbols():
+            for (D, strict), isl in zip(facts, is_len_fact):
+                if isl:
                     dv = _pval(D, env)
                     if dv is not None and (dv < 0 or (strict and dv == 0)):
                         lenfail = True
